@@ -1321,6 +1321,20 @@ pub(crate) fn verify_mmr_proof<'a, T: Iterator<Item = &'a HeaderView>>(
             }
         }
     };
+    // Each block number can only be proved once: the MMR library doesn't complain about two leaves at
+    // the same position, the proof still verifies as long as one of them is genuine.
+    {
+        let mut positions = digests_with_positions
+            .iter()
+            .map(|(position, _)| *position)
+            .collect::<Vec<_>>();
+        positions.sort_unstable();
+        positions.dedup();
+        if positions.len() != digests_with_positions.len() {
+            let errmsg = "failed to verify the proof since there are headers with the same number";
+            return Err(StatusCode::InvalidProof.with_context(errmsg));
+        }
+    }
     let verify_result = match proof.verify(parent_chain_root, digests_with_positions) {
         Ok(verify_result) => verify_result,
         Err(err) => {
